@@ -1,6 +1,9 @@
 package generator
 
-import "strings"
+import (
+	"strconv"
+	"strings"
+)
 
 func (g *Generator) ClientFile(cfg Config) GoFile {
 	return GoFile{
@@ -50,10 +53,11 @@ func (g *Generator) SpecFile(fileContent []byte) GoFile {
 }
 
 func encodeRawFileAsString(s string) string {
-	if strings.Contains(string(s), "\n") {
-		s = "`" + strings.ReplaceAll(string(s), "`", "`+\"`\"+`") + "`"
-	} else {
-		s = `"` + strings.ReplaceAll(string(s), `"`, `\"`) + `"`
+	// A raw string literal cannot carry a carriage return (the compiler discards
+	// it), a NUL or a byte order mark; such content, and content without a line
+	// break, is written as an interpreted string literal.
+	if strings.Contains(s, "\n") && !strings.ContainsAny(s, "\r\x00\ufeff") {
+		return "`" + strings.ReplaceAll(s, "`", "`+\"`\"+`") + "`"
 	}
-	return s
+	return strconv.Quote(s)
 }
